@@ -355,6 +355,10 @@ def compare(env, case, real, model):
                     return "message %d: impl %s model %s" % (i, L.jdump(a)[:300], L.jdump(b)[:300])
             return "message count: impl %d model %d" % (len(rm), len(mm))
         rn = dict((k, v) for k, v in real["state"]["next"]).get(case["dst"])
+        if case["dst"] in case["state"]["readonly"] and case["dst"] not in real["state"]["connected"]:
+            if rn is not None:
+                return "a dropped read-only node still has a next index"
+            return None
         if rn != model["next"]:
             return "nextIndex: impl %s model %s" % (rn, model["next"])
         return None
@@ -414,6 +418,13 @@ def monitors(env, case, real):
     ids = [c[0] for c in out["cbs"]]
     if len(ids) != len(set(ids)):
         v.append({"signature": SIG_CB2, "what": "callbacks %s fired in one %s" % (out["cbs"], op)})
+    if op == "send" and wellformed_send(case) and real["err"] is not None:
+        # C11: no exception while sending - also when the clock cuts the run or the destination is lost in the middle
+        v.append({"signature": SIG_EXC + ":" + real["err"],
+                  "what": "sendAppendEntries raised %s on a well-formed state (budget %s, destination lost at send %s, %s destination)"
+                          % (real["extra"].get("exc"), case.get("budget"), case.get("drop"),
+                             "read-only" if case["dst"] in st["readonly"] else "voting")})
+        return v
     if op == "send" and wellformed_send(case) and case.get("budget") is None and case.get("drop") is None:
         if real["err"] is not None:
             v.append({"signature": SIG_EXC + ":" + real["err"], "what": "sendAppendEntries raised %s on a well-formed state" % real["extra"].get("exc")})
@@ -513,7 +524,8 @@ class Gen(object):
         return out
 
     # ---------------------------------------------------------------- send
-    def send_case(self, B, log, nxt, snap=(), budget=None, drop=None, term=None, commit=None, match="confirmed"):
+    def send_case(self, B, log, nxt, snap=(), budget=None, drop=None, term=None, commit=None, match="confirmed",
+                  readonly=False):
         """match: "confirmed" = the destination has confirmed the entry before nextIndex (pipelined run);
         an int = that matchIndex; None = no matchIndex key for the destination"""
         last = log[-1][1] if log else 0
@@ -521,8 +533,8 @@ class Gen(object):
             match = max(nxt - 1, 0)
         st = blank_state(role=2, leader=0, term=term if term is not None else (max([e[2] for e in log] + [1])),
                          log=log, commit=commit if commit is not None else (log[0][1] if log else 1),
-                         members=[1], connected=[1], next=[[1, nxt]], match=([] if match is None else [[1, match]]),
-                         noop=last)
+                         members=([] if readonly else [1]), readonly=([1] if readonly else []), connected=[1],
+                         next=[[1, nxt]], match=([] if match is None else [[1, match]]), noop=last)
         return {"op": "send", "conf": conf(batch=B), "state": st, "dst": 1, "snap": list(snap), "budget": budget, "drop": drop}
 
     def sys_send(self, tier_scale):
@@ -575,6 +587,15 @@ class Gen(object):
                             continue
                         for budget, drop in ((None, None), (1, None), (None, 1), (None, 2)):
                             cases.append(self.send_case(100, log, nxt, snap, budget, drop, match=m))
+        # repair D65: the destination is lost in the middle of a chunk burst (drop at chunk 1..n and just after), for
+        # a voter and for a READ-ONLY node (whose next / match index disappear with the connection), probing or not
+        for ro in (False, True):
+            for sizes in ([1, 330], [1, 330, 5, 250], [1, 20, 330, 7]):
+                log = self.log(1, sizes)
+                for nxt in (2, 3):
+                    for m in ("confirmed", 0):
+                        for drop in (1, 2, 3, 4, 5, 6, 7, 9):
+                            cases.append(self.send_case(100, log, nxt, (), None, drop, match=m, readonly=ro))
         # partial operations: empty log, one-entry log with a final snapshot chunk, holes (malformed stream)
         cases.append(self.send_case(100, [], 1))
         one = self.log(1, [1])
@@ -1050,6 +1071,9 @@ def classify(case, real, model):
             tags.append("send:budget")
         if case.get("drop") is not None:
             tags.append("send:drop")
+            chunks = [m for m in model.get("msgs", []) if m["t"] == "chunk"]
+            if chunks and chunks[-1]["label"] != "finish":
+                tags.append("send:drop-inside-burst" + ("-readonly" if case["dst"] in case["state"]["readonly"] else ""))
         nxs = dict((k, v) for k, v in case["state"]["next"]).get(case["dst"])
         mi = dict((k, v) for k, v in case["state"]["match"]).get(case["dst"])
         reg = [b for b in model.get("batches", []) if b != "snapshot"]
@@ -1127,7 +1151,7 @@ def classify(case, real, model):
     return tags
 
 
-FLOORS = ["probe:unconfirmed", "probe:confirmed-exactly", "probe:confirmed-beyond", "send:pipelined", "op:send", "op:sendall", "op:check", "op:submit", "op:recv_apply", "op:recv_response", "op:leader_changed",
+FLOORS = ["send:drop-inside-burst", "send:drop-inside-burst-readonly", "probe:unconfirmed", "probe:confirmed-exactly", "probe:confirmed-beyond", "send:pipelined", "op:send", "op:sendall", "op:check", "op:submit", "op:recv_apply", "op:recv_response", "op:leader_changed",
           "op:fappend", "op:restore", "op:reapply", "op:journalfold", "op:capture", "op:appendmsg", "env:stale-term", "env:term-adopted", "env:term-equal",
           "env:role-0", "env:role-1", "env:role-2", "env:leader-same", "env:leader-none", "env:leader-changed",
           "env:callbacks-leader-changed", "env:commit-raised", "env:commit-kept", "env:snap-none", "env:snap-notlast",
